@@ -433,9 +433,26 @@ func (d *diskRun) crashPoints(trace []opTrace, thorough bool) [][3]int64 {
 	for _, t := range trace {
 		pts = append(pts, [3]int64{t.n, simos.Before, 0})
 		if t.kind == simos.OpWrite && t.size > 1 {
-			if thorough || t.size <= 12 {
+			if t.size <= 12 || (thorough && t.size <= 2048) {
 				for b := 1; b < t.size; b++ {
 					pts = append(pts, [3]int64{t.n, simos.Torn, int64(b)})
+				}
+			} else if thorough {
+				// A large write (snapshot data): every byte of both ends, a stride in between.
+				seen := map[int]bool{}
+				add := func(b int) {
+					if b >= 1 && b < t.size && !seen[b] {
+						seen[b] = true
+						pts = append(pts, [3]int64{t.n, simos.Torn, int64(b)})
+					}
+				}
+				for b := 1; b <= 64; b++ {
+					add(b)
+					add(t.size - b)
+				}
+				stride := t.size/128 + 1
+				for b := 64 + d.rng.Intn(stride); b < t.size; b += stride {
+					add(b)
 				}
 			} else {
 				seen := map[int]bool{}
